@@ -108,6 +108,132 @@ PROPERTIES["C19"] = {
     "technique": "scan counting via template graph type; TLC validation of scan counts in records; algorithm models with scan counters model checked",
 }
 
+def c07_run(pid, tier, seed):
+    """Rejected calls: graph operations (Machine.tla with bad arguments) and searches /
+    subgraphs (Derived.tla reject modes), in the plain and in the ASan+UBSan build."""
+    q = tier == "quick"
+    violations, cov_parts = [], []
+    gh = vf.build_gh("o1")
+    scns = props_machine.c07(tier)
+    res, v = props_machine.run_scenarios(pid, scns, seed, gh)
+    violations += v
+    mcov = props_machine.coverage_of(res, scns)
+    # same transition graphs under AddressSanitizer + UBSan (smaller bounds in the quick tier)
+    gh_asan = vf.build_gh("asan")
+    scns_a = props_machine.c07("quick" if q else "thorough")
+    for s in scns_a:
+        s.name += "-asan"
+        s.trace = None
+        s.reps = 1
+        if q and s.maxn > 1:
+            s.maxn = 1
+            s.name = s.name.replace("2bad", "1bad")
+    res_a, v = props_machine.run_scenarios(pid, scns_a, seed, gh_asan)
+    violations += v
+    acov = props_machine.coverage_of(res_a, scns_a)
+    # searches and subgraph extraction
+    ah = vf.build_ah("o1")
+    ares, v = props_algo.run_all(pid, props_algo.c07_algo_sets(tier), [], seed, ah, validate=False)
+    violations += v
+    ah_asan = vf.build_ah("asan")
+    sets_a = props_algo.c07_algo_sets(tier)
+    for cs in sets_a:
+        cs.name += "-asan"
+    ares_a, v = props_algo.run_all(pid, sets_a, [], seed, ah_asan, validate=False)
+    violations += v
+    algo_cases = sum((r.get("ah") or {}).get("cases", 0) for r in ares)
+    algo_runs = sum((r.get("ah") or {}).get("runs", 0) for r in ares + ares_a)
+    rejected_transitions = mcov["rejected_call_transitions_executed"]
+    cov = {
+        "evaluations": mcov["impl_executions"] + acov["impl_executions"] + algo_runs,
+        "distinct_nontrivial": rejected_transitions + algo_cases,
+        "rule": "every (reachable state, entry point, argument position, bad value in {size, size+1, UINT_MAX}, flag "
+                "combination) instance generated by TLC from Machine.tla (graph operations, incl. resize-to-smaller, "
+                "setEdgeLabel/getEdgeLabel/getEdgeWeight on a missing edge) and from Derived.tla (searches, path "
+                "reconstruction, subgraph extraction); distinct = distinct rejected transitions of the specification's "
+                "state graph + distinct search/subgraph cases; each is executed on the real classes and must throw the "
+                "documented exception type and leave the object identical (neighbour sequences included); the whole set is "
+                "re-run under AddressSanitizer+UBSan",
+        "samples": (mcov["samples"] + [{"algo_case": s} for r in ares for s in ((r.get("ah") or {}).get("samples") or [])[:1]])[:6],
+        "states": mcov["states"], "transitions": mcov["transitions"],
+        "rejected_call_transitions_executed": rejected_transitions,
+        "rejected_call_transitions_executed_under_asan": acov["rejected_call_transitions_executed"],
+        "search_and_subgraph_reject_cases": algo_cases,
+        "traces_validated_against_impl": mcov["traces_validated_against_impl"],
+        "trace_events_validated": mcov["trace_events_validated"],
+        "classes_and_label_kinds": mcov["classes_and_label_kinds"],
+        "calls_exercised": mcov["calls_exercised"],
+        "builds": ["g++ -O1", "clang++ -O1 -fsanitize=address,undefined"],
+        "scenarios": mcov["scenarios"] + acov["scenarios"],
+        "exhaustive": True,
+    }
+    return violations, cov, MACHINE_ASSUMPTIONS + ["an out-of-bounds access is detected when it changes an outcome, crashes, "
+                                                    "or is reported by AddressSanitizer/UBSan"]
+
+
+PROPERTIES["C07"] = {
+    "run": c07_run, "level": "fault_enumeration",
+    "text": "the specification enumerates every rejected call (entry point x argument position x out-of-range value x flags, "
+            "and the invalid_argument cases) in every reachable state of small graphs; TLC checks that a rejected call leaves "
+            "every variable unchanged (action property) and rejected calls are interleaved with valid ones in the state graph "
+            "and in recorded random histories; each instance is executed on the real classes, in a plain and in an "
+            "ASan+UBSan build, comparing exception type and exact before/after state",
+    "note": "bad values are size, size+1 and UINT_MAX; states up to 2 vertices (thorough: 2-3); out-of-bounds accesses are "
+            "observed through outcomes, crashes and sanitizer reports",
+    "technique": "TLC-enumerated fault instances from the TLA+ state machine replayed on the real classes under ASan/UBSan; TLC trace validation of histories mixing rejected and valid calls",
+}
+
+def c08_run(pid, tier, seed):
+    """Edge/vertex enumeration: the cursor model EdgeIter.tla on every shape, its yielded
+    sequences compared with the real traversal; plus the traversal checks that the projection
+    performs in every reachable state of all eight classes (state-graph walks)."""
+    import algo
+    q = tier == "quick"
+    fam = props_algo.NOLABEL + props_algo.LABELED[:1] + props_algo.LABELED[4:5]
+    sets = [algo.IterCases("iter-d", True, 3, families=fam),
+            algo.IterCases("iter-u3", False, 3, maxins=6, families=fam),
+            algo.IterCases("iter-u4", False, 4, maxins=4 if q else 5, families=fam)]
+    ah = vf.build_ah("o1")
+    ares, violations = props_algo.run_all(pid, sets, [], seed, ah, validate=False)
+    S = props_machine.S
+    scns = [S("dn3", "dn", 3, reps=2), S("un3", "un", 3, reps=2), S("dl2", "dl", 2, labels=(0, 1), reps=1),
+            S("ul2", "ul", 2, labels=(0, 1), reps=1), S("dm2", "dm", 2, reps=2), S("um2", "um", 2, reps=2),
+            S("dw2", "dw", 2, reps=2), S("uw2", "uw", 2, reps=2)]
+    if not q:
+        scns += [S("un4", "un", 4, reps=3), S("um3", "um", 3, mults=(0, 1, 2), maxmult=2, reps=2),
+                 S("uw3", "uw", 3, reps=2)]
+    gh = vf.build_gh("o1")
+    mres, v = props_machine.run_scenarios(pid, scns, seed, gh)
+    violations += v
+    acov = props_algo.coverage_of(ares)
+    mcov = props_machine.coverage_of(mres, scns)
+    cov = {
+        "states": acov["states"] + mcov["states"], "transitions": acov["transitions"] + mcov["transitions"],
+        "traces_validated_against_impl": acov["cases_executed_on_impl"],
+        "shapes_enumerated_by_tlc_and_traversed_on_impl": acov["cases_executed_on_impl"],
+        "cursor_model_states": acov["states"],
+        "reachable_states_of_all_classes_traversed": mcov["spec_transitions_executed_on_impl"],
+        "classes_and_label_kinds": mcov["classes_and_label_kinds"],
+        "samples": acov["samples"][:3] + mcov["samples"][:2],
+        "sets": acov["sets"], "scenarios": mcov["scenarios"], "exhaustive": True,
+    }
+    return violations, cov, ["list orders: every order of every list (directed, <=3 vertices); every insertion sequence "
+                             "of distinct pairs (undirected, <=3 vertices; <=4-5 insertions on 4 vertices)",
+                             "in the state-graph walks the projection traverses edges() with range-for, pre- and "
+                             "post-increment and twice, and the vertices, in every state reached"] + MACHINE_ASSUMPTIONS[:2]
+
+
+PROPERTIES["C08"] = {
+    "run": c08_run, "level": "model_checking",
+    "text": "EdgeIter.tla models the (vertex, position) cursor of Edges::begin/++/end over adjacency sequences, with every list "
+            "access guarded; every shape within the bounds (all sizes from 0, all edge sets, all list orders reachable by "
+            "insertion) is an initial state and TLC checks no out-of-range access, termination, the exact yielded sequence and "
+            "begin()==end() iff no edge; the yielded sequences are compared with the real traversals (range-for, pre/post "
+            "increment, repeated); in addition every reachable state of all eight classes is traversed in the state-graph walks",
+    "note": "exhaustive within <=3 vertices (<=4 with bounded insertions); trusted base: TLC, harness",
+    "technique": "TLA+ cursor model checked by TLC on all shapes; spec-generated expected sequences compared with the real iterators; state-graph walk of all classes",
+}
+
 NOT_APPLICABLE = {
     "C20": "compile-/link-time well-formedness of templates and headers: there is no state, transition or observable "
            "behaviour for a TLA+ specification to describe or for a trace to bind (DESIGN.md section 5)",
